@@ -23,6 +23,7 @@ SHARDS = {"quick": 8, "thorough": 16}
 SOFT_SECONDS = {"quick": 900, "thorough": 6 * 3600}
 SHRINK_SECONDS = {"quick": 60, "thorough": 240}
 MAX_SHRUNK_BUCKETS = 6
+FUZZ_RUNS = 20000
 
 
 def child_env():
@@ -131,6 +132,15 @@ def run(pid, tier, seed, a):
                 out = os.path.join(work, f"{part.name}_{k}.json")
                 procs.append((part, k, out, launch(pid, part.name, tier, seed, k, nshards, "collect", out)))
 
+        # --- coverage-guided supplement (thorough tier only; needs atheris under .deps, installed by setup_cmd)
+        fuzz_jobs = []
+        if tier == "thorough" and os.path.isdir(os.path.join(ROOT, ".deps", "atheris")) and not a.parts:
+            for pname in getattr(mod, "FUZZ", {}):
+                for k in range(4):
+                    st_file = os.path.join(work, f"fuzz_{pname}_{k}.json")
+                    cmd = [PY, "-m", "opv.fuzz", pid, pname, "--runs", str(FUZZ_RUNS), "--seed", str(seed * 10 + k + 1), "--stats", st_file, "--max-seconds", "900"]
+                    fuzz_jobs.append((pname, st_file, subprocess.Popen(cmd, cwd=ROOT, env=child_env(), stdout=subprocess.DEVNULL, stderr=subprocess.DEVNULL)))
+
         violations = []  # (replay path)
         known_lines = []
         harness_errors = []
@@ -225,6 +235,20 @@ def run(pid, tier, seed, a):
                 print(f"  FAIL {d['assert']}: {d['detail']}")
             violations.append(rp)
 
+        # --- gather the coverage-guided supplement
+        fuzz_ev = []
+        for pname, st_file, proc in fuzz_jobs:
+            try:
+                proc.wait(timeout=1500)
+            except subprocess.TimeoutExpired:
+                proc.kill()
+            if os.path.exists(st_file):
+                fs = json.load(open(st_file))
+                fuzz_ev.append({"part": pname, "seed": fs["seed"], "cases": fs["cases"], "distinct_nontrivial": fs["distinct_nontrivial"], "excluded_by_finding": fs["excluded"], "violations": len(fs["violations"]), "wall_s": round(fs["wall_s"], 1)})
+                for rp in fs["violations"]:
+                    print(f"coverage-guided supplement ({pname}, seed {fs['seed']}) found a failing case")
+                    violations.append(rp)
+
         # --- generator health
         scale = a.scale
         for part in parts:
@@ -273,6 +297,7 @@ def run(pid, tier, seed, a):
                     for name, g in agg.items()
                 },
                 "corpus_cases": corpus_n,
+                "coverage_guided_supplement": fuzz_ev,
                 "known_findings_reproduced": len(known_lines),
                 "shards": nshards,
                 "exhaustive": False,
